@@ -15,7 +15,14 @@ import (
 	"golang.org/x/tools/go/ssa/ssautil"
 )
 
-const repoDir = "/repo"
+// repoDir: the tree under check. VERIF_REPO is a development aid (running a check against a scratch
+// worktree carrying a seeded change); no registered command sets it.
+var repoDir = func() string {
+	if d := os.Getenv("VERIF_REPO"); d != "" {
+		return d
+	}
+	return "/repo"
+}()
 
 // shared harness files restricted to some packages (default: every non-analysis harness package)
 var sharedOnlyFor = map[string]map[string]bool{}
